@@ -1,3 +1,4 @@
+import Pocket.Lemmas.FromSourceLayout
 import Pocket.Lemmas.FromSourcePreds
 import Pocket.Lemmas.FromSourceConsts
 import Pocket.Lemmas.Total
@@ -280,5 +281,14 @@ theorem tag_table_from_source : Src.startTagsLen = 52 := Pocket.parser_bounds_fr
 /-- which members are tag constraints: the test on the byte after `#` in `parse_json_filter`, as the source spells it today,
 is the model's "single ASCII letter" -/
 theorem tag_member_letter_from_source (b : Nat) : Src.tagMemberLetter b = isLetter b := Pocket.tag_member_letter_from_source b
+
+/-- the 32-byte header `Filter::from_parts` writes today (translated statement by statement on every run) is the head of the model's
+encoding, and an absent limit / since / until is written as `u32::MAX` / `0` / `u64::MAX` -/
+theorem filter_header_from_source (ids authors : List Bytes) (kinds : List Nat) (tagBytes : Bytes) (since «until» limit : Nat) (size a b c : Nat) :
+    encodeFilterWith ids authors kinds tagBytes since «until» limit =
+      Src.filterHeader (filterSize ids.length authors.length kinds.length tagBytes.length) ids.length authors.length kinds.length
+        (some limit) (some since) (some «until») ++ (flat32 ids ++ flat32 authors ++ flatKinds kinds ++ tagBytes) ∧
+    Src.filterHeader size a b c none none none = Src.filterHeader size a b c (some U32MAX) (some 0) (some U64MAX) :=
+  ⟨Pocket.filter_header_from_source ids authors kinds tagBytes since «until» limit, filter_defaults_from_source size a b c⟩
 
 end Pocket.C07
